@@ -84,7 +84,7 @@ func (e *kdfEnv) cmp(key string, got, want []byte, input map[string]any) bool {
 func (e *kdfEnv) guard(key string, input map[string]any, f func()) bool {
 	if pi := core.Guard(f); pi != nil {
 		e.c.Eval(1)
-		e.c.Violation("kdf:"+key+":"+pi.Key, pi.Value+"\n"+pi.Stack, "", input)
+		e.c.Violation("kdf:"+key+":"+panicKey(pi), pi.Value+"\n"+pi.Stack, "", input)
 		return false
 	}
 	return true
